@@ -1,3 +1,4 @@
+import re
 """C14 -- Array, String, StringStream and StringView behave as plain sequences (structural clauses)."""
 from qlib import astq, dataflow
 from qlib.model import AnalysisBroken
@@ -22,6 +23,7 @@ META = {
     "not_decided": "equality with a sequence model over operation histories",
     "assumptions": ["element relocation by byte copy is valid for the element types used (no self-pointers; checked under C16)"],
 }
+META["explanation"] += " " + 'Also: an element reference handed to a container method may refer to an element of that container (a += a[0]) and a same-class argument taken by const reference may be the container itself (h += h) -- neither is used after a call that may release the storage; no register-wide access sits outside the counted vector loop of Copy/SetToZero (a literal offset fits one register width only); (NARROW-unit) no code unit is narrowed below 32 bits in the string utilities.'
 
 
 def size_updates(f):
@@ -186,8 +188,15 @@ def run(ctx):
         ctx.note_fn(g)
         t = " ".join(g.text(x) for x in g.walk() if g.nodes[x]["k"] in ("BinaryOperator", "CompoundAssignOperator", "DeclStmt"))
         ok = "m_size = (size >> Shift)" in t and "(offset = m_size)" in t and "(offset <<= Shift)" in t
-        loops = astq.nodes_of(g, "WhileStmt")
-        tail = [w for w in loops if g.text(g.nodes[w]["cond"]).replace(" ", "") == "(offset<size)"]
+        # byte tail: a loop `offset < size` that steps offset by one (in its body or as the for-increment)
+        tail = []
+        for w in astq.nodes_of(g, ("WhileStmt", "ForStmt")):
+            cnd = g.nodes[w].get("cond", -1)
+            if cnd is None or cnd < 0 or g.text(cnd).replace(" ", "") not in ("(offset<size)", "offset<size"):
+                continue
+            steps = [x for x in g.walk(w) if g.nodes[x]["k"] == "UnaryOperator" and g.nodes[x]["op"] == "++" and g.text(g.nodes[x]["ch"][0]) == "offset"]
+            if len(steps) == 1:
+                tail.append(w)
         r.ob(g.q, "vector + tail", ok and len(tail) == 1, "vector part covers [0, m_size << Shift), the tail loop covers [offset, size)", "Include/Memory.hpp:%d" % g.line)
         # every whole-register access sits in the counted vector loop; one outside it must address size - Size, written with
         # the configuration's own constant (a literal matches one register width only)
@@ -198,8 +207,24 @@ def run(ctx):
             lp = astq.enclosing(g, c, ("DoStmt", "WhileStmt", "ForStmt"))
             if lp is not None and lp in dos:
                 continue
-            a0 = g.text(g.call_args(c)[0]).replace(" ", "")
-            if "size-Platform::SIMD::Size" in a0 or "size-Size" in a0:
+            def is_size_minus_width(nid):
+                n_ = g.nodes[g.strip_casts(nid)]
+                if n_["k"] != "BinaryOperator" or n_["op"] != "-" or g.text(g.strip_casts(n_["ch"][0])) != "size":
+                    return False
+                sub = [g.nodes[x] for x in g.walk(n_["ch"][1])]
+                names = [x.get("n") for x in sub if x["k"] in ("DeclRefExpr", "DependentScopeDeclRefExpr", "MemberExpr")]
+                return names == ["Size"] and not any(x["k"] == "IntegerLiteral" for x in sub)
+            # the address is  base + (size - SIMD::Size), directly or through a local defined that way
+            width_locals = set(d["n"] for st_ in astq.nodes_of(g, "DeclStmt") for d in g.nodes[st_]["decls"] if d.get("init", -1) >= 0 and is_size_minus_width(d["init"]))
+            arg = g.call_args(c)[0]
+            ok_addr = False
+            for x in g.walk(arg):
+                nx = g.nodes[x]
+                if nx["k"] == "BinaryOperator" and nx["op"] == "+":
+                    rhs = g.strip_casts(nx["ch"][1])
+                    if is_size_minus_width(rhs) or (g.nodes[rhs]["k"] == "DeclRefExpr" and g.nodes[rhs].get("n") in width_locals):
+                        ok_addr = True
+            if ok_addr:
                 continue
             stray.append("%s at %s" % (g.text(c)[:70], g.loc(c)))
         r.ob(g.q, "%d whole-register accesses" % len(vec), bool(vec) and not stray, "all inside the vector loop bounded by m_size registers%s" % (
